@@ -1495,6 +1495,23 @@ pub fn f8() -> Fragment {
             ],
         });
     }
+    // the built-in function used in two modules
+    programs.push(Program {
+        modules: vec![
+            Module {
+                name: "main.oal".into(),
+                stmts: vec![
+                    Stmt::Use("lib.oal".into(), Some("l".into())),
+                    Stmt::Res(rel(app("concat", vec![qvar("l", "base"), uri_lit(&["items"])]), vec![xfer(Method::Get, content(obj(vec![prop("up", qvar("l", "more"))])))])),
+                    Stmt::Res(rel(app("concat", vec![qvar("l", "more"), uri_lit(&["x"])]), vec![xfer(Method::Get, E::Content(vec![], None))])),
+                ],
+            },
+            Module {
+                name: "lib.oal".into(),
+                stmts: vec![let_("base", uri_lit(&["api"])), let_("more", app("concat", vec![var("base"), uri_lit(&["more"])]))],
+            },
+        ],
+    });
     // relative spellings of the same module
     for sp in ["m.oal", "./m.oal", "d/../m.oal"] {
         programs.push(Program {
